@@ -219,6 +219,35 @@ def observer_handoff_atomic(tree, rep, rule):
                       w.fn in ("fire", "when_next_event"), w.site, key="%s:SequenceObserver._results:taker:%s" % (rule, w.fn))
 
 
+def observers_fire_eventually(tree, rep, rule):
+    """OneShotObserver / SequenceObserver never run a waiting Deferred's callbacks synchronously: `d.callback` / `d.errback` only ever
+    appear as the function handed to the eventual queue.  A subscriber that is called back from inside when_fired() / fire() runs in
+    the middle of whatever the caller was doing (the Connector's select(): the Manager hears `lost` before `made`; the Boss's closed():
+    application code runs inside a transition)"""
+    OBS = "src/wormhole/observer.py"
+    n = 0
+    for cname in ("OneShotObserver", "SequenceObserver"):
+        cls = tree.cls(OBS, cname)
+        direct, deferred = [], 0
+        for c in ast.walk(cls):
+            if isinstance(c, ast.Call):
+                if isinstance(c.func, ast.Attribute) and c.func.attr in ("callback", "errback"):
+                    direct.append(c)
+                for a in c.args:
+                    if isinstance(a, ast.Attribute) and a.attr in ("callback", "errback"):
+                        deferred += 1 if (isinstance(c.func, ast.Attribute) and c.func.attr == "eventually") else 0
+                        if not (isinstance(c.func, ast.Attribute) and c.func.attr == "eventually"):
+                            direct.append(c)
+        n += deferred
+        rep.check(rule, "%s hands every d.callback / d.errback to the eventual queue (%d sites), never calls one directly" % (cname, deferred),
+                  not direct and deferred > 0, site(direct[0] if direct else cls, OBS), key="%s:%s:fires-eventually" % (rule, cname),
+                  what="%s fires a waiting Deferred synchronously (%s): the subscriber's callback runs re-entrantly inside the caller "
+                       "(e.g. a connection lost between consider() and accept() is reported to the Manager before connection_made, and "
+                       "the notification is used up)" % (cname, ast.unparse(direct[0])[:60] if direct else "no eventual hand-off found"))
+    if n < 4:
+        raise AnalysisError("observer.py: fewer eventual hand-offs than expected (%d)" % n)
+
+
 def eventual_turn_isolates_calls(tree, rep, rule):
     """EventualQueue._turn: a queued call that raises is logged and does NOT drop the calls queued behind it (one of which can be
     the delivery of a message already taken out of the observer's buffer)"""
@@ -268,6 +297,7 @@ def r3(tree, prog, rep):
     if len(own) < 3:
         raise AnalysisError("SequenceObserver._results has fewer writers than expected")
     observer_handoff_atomic(tree, rep, "C03.R3")
+    observers_fire_eventually(tree, rep, "C03.R3")
     eventual_turn_isolates_calls(tree, rep, "C03.R3")
     own, foreign = class_writers(tree, "SequenceObserver", "_observers")
     for w in own + foreign:
@@ -321,6 +351,8 @@ def r6(tree, rep, tier):
 
 
 def run(tree, rep, tier):
+    from .. import sharedstate
+    sharedstate.check(tree, rep, "C03.R0")
     prog = Program(tree)
     r1(tree, prog, rep)
     r2(tree, prog, rep)
